@@ -115,6 +115,7 @@ class Policy(object):
     """retryPolicy(failures) -> float.  Records the argument of every call."""
 
     def __init__(self, kind, rnd):
+        kind = kind[:-3] if kind.endswith("+cc") else kind      # "+cc" selects the network flavour, see CcNet
         self.kind = kind
         self.calls = []
         if kind == "twisted":
@@ -139,6 +140,40 @@ class Policy(object):
         return self.fn(k)
 
 
+# ------------------------------------------------------------------ network flavour
+class CcAttempt(simnet.Attempt):
+    """A connection attempt that reports cancellation the way Twisted's stock endpoints do (TCP4ClientEndpoint,
+    HostnameEndpoint, TLS wrappers): the canceller itself fails the Deferred with error.ConnectingCancelledError, which
+    is NOT a defer.CancelledError.  simnet.Attempt leaves it to Deferred.cancel() (plain CancelledError).  The model
+    does not distinguish the two: the code must not care.  Selected per case by a policy kind ending in "+cc"."""
+
+    def _cancelled(self, d):
+        from twisted.internet.error import ConnectingCancelledError
+        simnet.Attempt._cancelled(self, d)
+        d.errback(ConnectingCancelledError(simnet.SimAddress(self.host, self.port)))
+
+
+class CcEndpoint(simnet.PuppetEndpoint):
+    def connect(self, factory):
+        net = self.net
+        net._attempts += 1
+        a = CcAttempt(net, net._attempts, self.host, self.port, factory)
+        net.attempts.append(a)
+        net.log.append(("connect", a.attempt_id, self.host, self.port))
+        mode, net.sync = net.sync, None
+        if mode == "ok":
+            a.accept()
+        elif mode == "fail":
+            a.fail()
+        return a.d
+
+
+class CcNet(simnet.SimNet):
+    def __call__(self, reactor, host, port):
+        self.calls.append((host, port))
+        return CcEndpoint(self, host, port)
+
+
 # ------------------------------------------------------------------ the implementation under test
 class Impl(object):
     def __init__(self, policy_kind="const", rnd=None):
@@ -147,7 +182,7 @@ class Impl(object):
         self.BrokerMetadata = BrokerMetadata
         self.log = []
         self.clock = simnet.SimClock(self.log)
-        self.net = simnet.SimNet(self.log)
+        self.net = CcNet(self.log) if policy_kind.endswith("+cc") else simnet.SimNet(self.log)
         self.policy = Policy(policy_kind, rnd)
         self.client = _KafkaBrokerClient(self.clock, self.net, BrokerMetadata(1, "h0", 9092), "verif", self.policy)
         self.handles = []         # Deferreds returned by makeRequest, index = handle
@@ -225,7 +260,10 @@ class Impl(object):
     def _dispatch(self, ev, k, en, log):
         from afkak.common import DuplicateRequestError
         if not en:
-            pass
+            # no attempt / transport / Deferred to act on: nothing can be done to the implementation, except for time:
+            # a "late" timer event is time passing with no timer armed, which must produce nothing
+            if k == "fire":
+                self.clock.advance(3600.0)
         elif k == "make":
             h = len(self.handles)
             try:
